@@ -15,7 +15,9 @@ import numpy as np
 from harness import alpha, compare, core, gamma, gamma_chk, shims, tlc, util
 
 INV = ["ConvertRefines", "NoSharedWrites", "PoolOK", "Emit"]
-SPECIES3 = ["H2", "O2", "N2"]
+# species in an order that is neither alphabetical nor reverse alphabetical (their order is the checkpoint's component order)
+SPECIES_ORDERS = [["O2", "H2", "N2"], ["H2", "O2", "N2"], ["N2", "OH", "H2"], ["OH", "AR", "H2O"]]
+SPECIES3 = SPECIES_ORDERS[1]
 
 
 def cfg(**c):
@@ -62,7 +64,7 @@ def run_scenario(chk, sc, cfgseed, species_src, flavour="sched", workers=None):
     cfg_ = gamma.Config.draw(rng, ndims=3, payload="tame")
     ns = sc["ns"]
     ng = 1 + cfgseed % 3
-    species = SPECIES3[:ns]
+    species = SPECIES_ORDERS[cfgseed % len(SPECIES_ORDERS)][:ns]
     mesh = gamma_chk.nested_mesh([[c - 1 for c in L["cells"]] for L in sc["levels"]])
     layouts = [{"state": L["state"], "gradp": L["gradp"], "ir": L["ir"]} for L in sc["levels"]]
     d = chk.tmp()
@@ -195,3 +197,6 @@ def run(chk, replay):
         chk.traces += 1
         if v:
             chk.violation(sigs, v, {"sc": sc, "cfgseed": cfgseed, "species_src": src, "sigs": sigs})
+    # the command line layer (spec/Cli.tla): every subset of the tool's options typed to the real main(), API intercepted
+    from harness import cli
+    cli.phase(chk, "chk2plt")
